@@ -291,3 +291,57 @@ Proof.
   pose proof (src_iov_total_loop lens n fuel 0 0 Hf) as H. cbn [Z.add] in H.
   rewrite H by lia. reflexivity.
 Qed.
+
+(* -------------------------------------------------------------------------------------------------------------
+   Client side (gen/Src_ipcc.v, regenerated from lib/ipcc.c): qb_ipcc_send refuses a message above the negotiated
+   maximum before the flow-control word is read or the transport is called; qb_ipcc_sendv does the same for the iovec
+   total while that total stays below 2^31 (its accumulator is an int32_t: see the remark in DESIGN.md, section 9) *)
+Require Import Verif.gen.Src_ipcc.
+
+Lemma src_ipcc_send_oversize fuel c p len fcmax ffc nsp mx k1 k2 k3 k4 o1 o2 o3 o4 :
+  c <> 0 -> mx < len ->
+  qb_ipcc_send fuel c p len fcmax ffc nsp mx k1 k2 k3 k4 o1 o2 o3 o4 = Some (- IPC_EMSGSIZE, k1, k2, k3, k4).
+Proof.
+  intros Hc Hs. unfold qb_ipcc_send. apply Z.eqb_neq in Hc. rewrite Hc.
+  assert (E : (len >? mx) = true) by lia. rewrite E. reflexivity.
+Qed.
+
+Lemma src_ipcc_sendv_loop lens : forall (n : nat) fuel i acc,
+  (n < fuel)%nat -> 0 <= i -> i + Z.of_nat n < 2 ^ 31 -> 0 <= acc ->
+  (forall j, 0 <= lens j) -> acc + sum_lens lens i n < 2 ^ 31 ->
+  qb_ipcc_sendv_loop1 fuel lens (i + Z.of_nat n) i acc = Some (i + Z.of_nat n, acc + sum_lens lens i n).
+Proof.
+  induction n as [|n IH]; intros fuel i acc Hf Hi Hn Ha Hl Hs; destruct fuel as [|fuel]; try lia.
+  - cbn [qb_ipcc_sendv_loop1 sum_lens]. rewrite Z.add_0_r.
+    rewrite (u64_small i) by (unwrap; lia). rewrite Z.ltb_irrefl. f_equal. f_equal. lia.
+  - cbn [qb_ipcc_sendv_loop1].
+    rewrite (u64_small i) by (unwrap; lia).
+    assert (E : (i <? i + Z.of_nat (S n)) = true) by (apply Z.ltb_lt; lia). rewrite E.
+    cbn [sum_lens] in Hs |- *.
+    assert (Hrest : 0 <= sum_lens lens (i + 1) n).
+    { clear - Hl. revert i. induction n as [|n IHn]; intros i; cbn [sum_lens]; [lia|]. specialize (IHn (i + 1)). specialize (Hl (i + 1)). lia. }
+    specialize (Hl i) as Hli.
+    rewrite (u64_small acc) by (unwrap; lia).
+    rewrite (u64_small (acc + lens i)) by (unwrap; lia).
+    rewrite (s32_small (acc + lens i)) by (unwrap; lia).
+    rewrite (s32_small (i + 1)) by (unwrap; lia).
+    replace (i + Z.of_nat (S n)) with ((i + 1) + Z.of_nat n) by lia.
+    rewrite IH by lia. f_equal. f_equal. lia.
+Qed.
+
+Lemma src_ipcc_sendv_oversize fuel c iov (n : nat) fcmax ffc nsp mx k1 k2 k3 k4 lens o1 o2 o3 o4 o5 :
+  c <> 0 -> (n < fuel)%nat -> Z.of_nat n < 2 ^ 31 -> (forall j, 0 <= lens j) -> sum_lens lens 0 n < 2 ^ 31 ->
+  mx < sum_lens lens 0 n ->
+  qb_ipcc_sendv fuel c iov (Z.of_nat n) fcmax ffc nsp mx k1 k2 k3 k4 lens o1 o2 o3 o4 o5
+  = Some (- IPC_EMSGSIZE, k1, k2, k3, k4).
+Proof.
+  intros Hc Hf Hn Hl Hs Hm. unfold qb_ipcc_sendv.
+  change (s32 0) with 0.
+  pose proof (src_ipcc_sendv_loop lens n fuel 0 0 Hf) as H. cbn [Z.add] in H.
+  rewrite H by lia.
+  apply Z.eqb_neq in Hc. rewrite Hc.
+  assert (Hnn : 0 <= sum_lens lens 0 n).
+  { clear - Hl. generalize 0 at 2. induction n as [|n IHn]; intros i; cbn [sum_lens]; [lia|]. specialize (IHn (i + 1)). specialize (Hl i). lia. }
+  rewrite u64_small by (unwrap; lia).
+  assert (E : (sum_lens lens 0 n >? mx) = true) by lia. rewrite E. reflexivity.
+Qed.
